@@ -171,6 +171,8 @@ class Interp:
         self.no_inline = set(no_inline)
         self.count = 0
         self.module = fn.module
+        # locals that a nested function rebinds (nonlocal): their value at a use is not the last value assigned here
+        self.shared_locals = {nm for n in ast.walk(fn.node) if isinstance(n, ast.Nonlocal) for nm in n.names}
 
     # ------------------------------------------------------------------ helpers
     def resolve_self_method(self, name):
@@ -620,7 +622,8 @@ class Interp:
             if vnode is not None and not any(isinstance(x, (ast.Call, ast.Await, ast.Yield, ast.YieldFrom, ast.Lambda,
                                                               ast.ListComp, ast.GeneratorExp, ast.DictComp, ast.SetComp))
                                              for x in ast.walk(vnode)) and not isinstance(vnode, (ast.List, ast.Dict, ast.Tuple, ast.Set)) \
-                    and not any(isinstance(x, ast.Name) and x.id == target.id for x in ast.walk(vnode)):
+                    and not any(isinstance(x, ast.Name) and x.id == target.id for x in ast.walk(vnode)) \
+                    and target.id not in self.shared_locals:
                 st.expr[target.id] = vnode
             else:
                 st.expr.pop(target.id, None)
